@@ -35,6 +35,16 @@ func rewrites(sched bool) []rewrite {
 			}
 			return bytes.Replace(src, pat, []byte("verifAfterFunc(d, func() {"), 1), nil
 		}},
+		// kauri.go: same reason - the aggregation timer is a goroutine sleeping for the tree's wait time
+		// (1000 h in the harness, where its expiry is an explorer-chosen event), which keeps one goroutine
+		// and one whole replica alive per Kauri instance ever built.
+		{file: "protocol/comm/kauri.go", apply: func(_ string, src []byte) ([]byte, error) {
+			pat := []byte("time.Sleep(k.tree.WaitTime())")
+			if bytes.Count(src, pat) != 1 {
+				return src, nil
+			}
+			return bytes.Replace(src, pat, []byte("verifSleep(time.Duration(k.tree.WaitTime()))"), 1), nil
+		}},
 	}
 	if sched {
 		rws = append(rws, schedRewrites()...)
